@@ -797,7 +797,14 @@ def exchArm (env : Env) (lhs : M Unit) (lty : Option Ty) (rhs : M Unit) : M Unit
   pop "%rdi"
   let lt ← needTy "node->lhs->ty" lty
   let ty ← needTy "node->lhs->ty->base" (env.ty? lt.base)
+  -- A floating value is exchanged through %rax.
+  if ty.kind == .float then emit (ins2 "movd" (xmm 0) (.r "%eax"))
+  else if ty.kind == .double then emit (ins2 "movq" (xmm 0) rax)
+  else pure ()
   emit (ins2 "xchg" (.r (← regAx ty.size)) (.m0 "%rdi"))
+  if ty.kind == .float then emit (ins2 "movd" (.r "%eax") (xmm 0))
+  else if ty.kind == .double then emit (ins2 "movq" rax (xmm 0))
+  else pure ()
   -- A value shorter than 4 bytes is kept sign- or zero-extended in
   -- %eax; xchg has only replaced the low byte or word.
   if ty.size == 1 then
